@@ -52,6 +52,17 @@ CHECKS = {
             "The boolean class is int-backed by design: its bit operations are compared by value (0 == False); "
             "serialisers special-casing the exact type bool are out of scope.",
             "DESIGN.md 3/C20"),
+    "C12": ("exploration",
+            "exhaustive enumeration of segment histories up to a length bound + Hypothesis-generated longer histories, "
+            "against a reference state machine written from the statement (model-based oracle over the history)",
+            "Every history of length <= 4 (thorough: <= 5, and 6 for one secondary-header length) over {CONT, FIRST, "
+            "LAST, UNSEG} x 2 APIDs x {in-sequence, gap}, with a wrap-around start count and secondary-header lengths "
+            "0 and 2, is run through packet_generator(combine_segmented_packets=True) and the yielded raw_data list is "
+            "compared with a reference per-APID state machine; random histories up to length 40 over <= 4 APIDs extend "
+            "this. Complete up to the length bound, sampled beyond.",
+            "UNSEGMENTED inside an open group of the same APID is ambiguous in the statement; either reading is accepted. "
+            "Observed through a header-only definition so that every assembled packet is yielded.",
+            "DESIGN.md 3/C12"),
 }
 
 PENDING_REASON = "check not built yet in this round (planned, see DESIGN.md section 3); nothing is claimed for it"
